@@ -406,10 +406,11 @@ pub fn large_irregular_spaces(tier: &str, futures: bool, streams: bool, declared
     if declared {
         specs.extend(crate::props_build::sparse_conflict_specs().into_iter().map(|(_, s)| s));
         specs.extend(crate::props_build::many_type_specs().into_iter().map(|(_, s)| s));
+        specs.extend(crate::props_build::size_threshold_specs(tier).into_iter().map(|(_, s)| s));
     }
     let count = specs.len();
     v.push(space(
-        &format!("{count} large graphs: arithmetic irregular DAGs on {ns:?} nodes{}; 5 base schedules, no deviation", if declared { ", two writers 1..300 unrelated functions apart, 31..130 data types" } else { "" }),
+        &format!("{count} large graphs: arithmetic irregular DAGs on {ns:?} nodes{}; 5 base schedules, no deviation", if declared { ", two writers 1..300 unrelated functions apart, 31..130 data types, declared shapes of 256/257/300 functions" } else { "" }),
         specs,
         Some(0),
         move |s: &Spec| {
@@ -485,7 +486,7 @@ pub fn wide_interrupt_spaces(tier: &str, streams: bool) -> Vec<Space> {
     specs.extend(crate::props_build::arithmetic_specs(if thorough { &[10, 20, 36] } else { &[10, 36] }, false).into_iter().map(|(_, s)| s).step_by(if thorough { 2 } else { 5 }));
     let count = specs.len();
     vec![space(
-        &format!("{count} wide / irregular graphs (k in {ks:?}, arithmetic DAGs on 10..36 nodes) with the interrupt armed, 3 base schedules, signal sent at any one point"),
+        &format!("{count} wide / irregular graphs (k in {ks:?}, arithmetic DAGs on 10..36 nodes) with the interrupt armed, 5 base schedules (incl. everything in flight completing between two polls, also inside a tokio task), signal sent at any one point"),
         specs,
         Some(1),
         move |s: &Spec| {
@@ -503,7 +504,18 @@ pub fn wide_interrupt_spaces(tier: &str, streams: bool) -> Vec<Space> {
                         r.interrupt = true;
                         r.imm_choice = false;
                         r.limit = if base == Base::Batch { Some(3) } else { None };
-                        c.push(JobCfg::S(r));
+                        c.push(JobCfg::S(r.clone()));
+                        if base == Base::Batch {
+                            // everything in flight completes between two polls, with the signal
+                            // sent in the same window; also inside a tokio task
+                            r.limit = None;
+                            c.push(JobCfg::S(r.clone()));
+                            r.task_budget = Some(127);
+                            c.push(JobCfg::S(r.clone()));
+                            r.task_budget = None;
+                            r.base = Base::ReverseBatch;
+                            c.push(JobCfg::S(r));
+                        }
                     }
                 }
             }
@@ -514,6 +526,99 @@ pub fn wide_interrupt_spaces(tier: &str, streams: bool) -> Vec<Space> {
                     cc.strat = Strat::NextN(2);
                     cc.interrupt = true;
                     c.push(JobCfg::C(cc));
+                }
+            }
+            c
+        },
+    )]
+}
+
+pub struct TaskOpts {
+    pub futures: bool,
+    pub streams: bool,
+    /// one failing function (first / middle / last of those that have a successor) per job
+    pub fail_single: bool,
+    pub limits: Vec<Option<usize>>,
+}
+
+/// Every poll inside a tokio task: the call's own channel and lock operations share tokio's
+/// cooperative budget of 128 units per poll (127..125: the user's futures used some of it), so on
+/// graphs where more than ~40 functions complete between two polls the budget runs out in the
+/// middle of the scheduler's bookkeeping - any operation may then pend with a lock guard held.
+/// Outside a runtime (every other space) the budget is unconstrained.
+pub fn tokio_task_spaces(tier: &str, o: TaskOpts) -> Vec<Space> {
+    let thorough = tier == "thorough";
+    let ks: &[usize] = if thorough { &[20, 42, 43, 44, 45, 46, 64, 65, 66, 100, 129, 130, 257] } else { &[45, 66, 130] };
+    let mut specs: Vec<Spec> = vec![];
+    for &k in ks {
+        specs.push(family_spec(Family::Antichain, k));
+        // k isolated functions and one edge f -> d, inserted last / first
+        specs.push(Spec::plain(k + 2, &[(k, k + 1)]));
+        specs.push(Spec::plain(k + 2, &[(0, 1)]));
+        for f in [Family::FanOut, Family::FanIn, Family::FanPair, Family::Comb, Family::Layered(2)] {
+            let kk = match f {
+                Family::FanPair | Family::Comb | Family::Layered(_) => k / 2,
+                _ => k,
+            };
+            specs.push(family_spec(f, kk));
+        }
+    }
+    let budgets: Vec<u16> = if thorough { vec![128, 127, 126, 125, 124, 100] } else { vec![128, 127, 126, 125] };
+    let count = specs.len();
+    let (futures, streams, fail_single) = (o.futures, o.streams, o.fail_single);
+    let limits = if o.limits.is_empty() { vec![None] } else { o.limits.clone() };
+    vec![space(
+        &format!("{count} wide graphs (k in {ks:?}: antichain, antichain + one edge, fans, two-depth fans, comb, layered) polled inside a tokio task with {budgets:?} budget units per poll, 3 base schedules, no deviation"),
+        specs,
+        Some(0),
+        move |s: &Spec| {
+            let mut c = vec![];
+            let ue = s.user_edges();
+            let mut with_succ: Vec<usize> = (0..s.n).filter(|&i| ue.iter().any(|&(a, _)| a == i)).collect();
+            if with_succ.len() > 3 {
+                with_succ = vec![with_succ[0], with_succ[with_succ.len() / 2], with_succ[with_succ.len() - 1]];
+            }
+            for &b in &budgets {
+                if futures {
+                    for api in [Api { kind: Kind::ForEach, mutable: false, with: true }, Api { kind: Kind::TryForEach, mutable: true, with: true }, Api { kind: Kind::Fold, mutable: false, with: true }] {
+                        for base in [Base::Eager, Base::Batch, Base::ReverseBatch] {
+                            if !api.concurrent() && base != Base::Eager {
+                                continue;
+                            }
+                            for rev in [false, true] {
+                                for &limit in &limits {
+                                    if limit.is_some() && !api.concurrent() {
+                                        continue;
+                                    }
+                                    let mut r = RunCfg::plain(api, s.n);
+                                    r.imm_choice = false;
+                                    r.base = base;
+                                    r.rev = rev;
+                                    r.limit = limit;
+                                    r.task_budget = Some(b);
+                                    c.push(JobCfg::S(r.clone()));
+                                    if fail_single && api.is_try() && !rev {
+                                        for &f in &with_succ {
+                                            let mut rf = r.clone();
+                                            rf.fail = (0..s.n).map(|i| i == f).collect();
+                                            c.push(JobCfg::S(rf));
+                                        }
+                                    }
+                                }
+                            }
+                        }
+                    }
+                }
+                if streams {
+                    for base in [CBase::Eager, CBase::DropFirst, CBase::HoldThenDropAll] {
+                        for rev in [false, true] {
+                            let mut cc = CCfg::plain(SApi::StreamWith);
+                            cc.base = base;
+                            cc.rev = rev;
+                            cc.task_budget = Some(b);
+                            c.push(JobCfg::C(cc));
+                        }
+                    }
                 }
             }
             c
@@ -624,6 +729,11 @@ pub fn try_apis() -> Vec<Api> {
 }
 
 fn space(label: &str, specs: Vec<Spec>, deviations: Option<usize>, cfgs: impl Fn(&Spec) -> Vec<JobCfg> + Sync + Send + 'static) -> Space {
+    if crate::ishim::DEFAULT_FEATURES_BUILD {
+        // the build without fn_graph's `interruptible` feature: only what that API can express
+        let f = move |s: &Spec| cfgs(s).into_iter().filter(crate::ishim::ni_ok_job).collect::<Vec<_>>();
+        return Space { specs, cfgs: Box::new(f), deviations, label: label.to_string() };
+    }
     Space { specs, cfgs: Box::new(cfgs), deviations, label: label.to_string() }
 }
 
@@ -783,6 +893,7 @@ pub fn c02(tier: &str) -> (Vec<Space>, Focus) {
     v.push(space("n=3 T=1 declarations, 6 concurrent _with APIs", decl_specs(3, 1), None, |s| cfgs_plain(s.n, &conc_with(), &[None], &REVS)));
     v.extend(mid_spaces(tier, true, true, None));
     v.extend(antichain_spaces(tier, AntiOpts { futures: true, streams: true, limits: vec![None, Some(2)], limit_below_width: false, fail_antichain: false }));
+    v.extend(tokio_task_spaces(tier, TaskOpts { futures: true, streams: true, fail_single: false, limits: vec![] }));
     v.extend(large_irregular_spaces(tier, true, true, false));
     v.extend(all_methods_spaces(tier, true, true));
     v.extend(n5_space(tier, &[]));
@@ -865,6 +976,7 @@ pub fn c03(tier: &str) -> (Vec<Space>, Focus) {
     v.extend(wide_spaces(tier, true, false));
     v.extend(mid_spaces(tier, true, true, None));
     v.extend(antichain_spaces(tier, AntiOpts { futures: true, streams: true, limits: vec![None, Some(1), Some(2)], limit_below_width: false, fail_antichain: false }));
+    v.extend(tokio_task_spaces(tier, TaskOpts { futures: true, streams: true, fail_single: false, limits: vec![] }));
     v.extend(large_irregular_spaces(tier, true, true, false));
     v.extend(all_methods_spaces(tier, true, true));
     v.extend(n5_space(tier, &[]));
@@ -922,6 +1034,7 @@ pub fn c04(tier: &str) -> (Vec<Space>, Focus) {
     v.extend(wide_spaces(tier, false, true));
     v.extend(mid_spaces(tier, true, false, None));
     v.extend(antichain_spaces(tier, AntiOpts { futures: true, streams: false, limits: vec![None, Some(1), Some(2)], limit_below_width: true, fail_antichain: true }));
+    v.extend(tokio_task_spaces(tier, TaskOpts { futures: true, streams: false, fail_single: true, limits: vec![None, Some(2)] }));
     v.extend(large_irregular_spaces(tier, true, false, false));
     v.extend(all_methods_spaces(tier, true, false));
     v.extend(n5_space(tier, &[Some(1)]));
@@ -945,6 +1058,7 @@ pub fn c09(tier: &str) -> (Vec<Space>, Focus) {
     let mut v = general_spaces(&o);
     v.extend(wide_spaces(tier, false, true));
     v.extend(antichain_spaces(tier, AntiOpts { futures: true, streams: false, limits: vec![None, Some(2)], limit_below_width: false, fail_antichain: true }));
+    v.extend(tokio_task_spaces(tier, TaskOpts { futures: true, streams: false, fail_single: true, limits: vec![] }));
     v.extend(wide_interrupt_spaces(tier, false));
     v.extend(all_methods_spaces(tier, true, false));
     v.extend(n5_space(tier, &[]));
@@ -1008,6 +1122,7 @@ pub fn c05(tier: &str) -> (Vec<Space>, Focus) {
     v.extend(mid_spaces(tier, false, true, None));
     v.push(space("stream on a graph value that an earlier run was completed on, shapes 1<=n<=3", shapes_upto(1, 3, false), None, |s| cfgs_after_earlier_run(s.n, &[], true)));
     v.extend(antichain_spaces(tier, AntiOpts { futures: false, streams: true, limits: vec![], limit_below_width: false, fail_antichain: false }));
+    v.extend(tokio_task_spaces(tier, TaskOpts { futures: false, streams: true, fail_single: false, limits: vec![] }));
     v.push(space("StreamOpts builder methods called in every order, shapes 1<=n<=3", shapes_upto(1, 3, false), None, |s| {
         cfgs_opts_orders(s.n, &[], &[None], true)
     }));
@@ -1059,6 +1174,7 @@ pub fn c06(tier: &str) -> (Vec<Space>, Focus) {
     v.extend(mid_spaces(tier, true, true, None));
     v.push(space("second run on a graph value that an earlier run was completed on, shapes 1<=n<=3", shapes_upto(1, 3, false), None, |s| cfgs_after_earlier_run(s.n, &conc_with(), true)));
     v.extend(antichain_spaces(tier, AntiOpts { futures: true, streams: true, limits: vec![None], limit_below_width: false, fail_antichain: false }));
+    v.extend(tokio_task_spaces(tier, TaskOpts { futures: true, streams: true, fail_single: false, limits: vec![] }));
     v.extend(large_irregular_spaces(tier, true, true, true));
     v.push(space("StreamOpts builder methods called in every order, shapes 1<=n<=3", shapes_upto(1, 3, false), None, |s| {
         cfgs_opts_orders(s.n, &conc_with(), &[None], true)
@@ -1127,6 +1243,7 @@ pub fn c07(tier: &str) -> (Vec<Space>, Focus) {
         c
     }));
     v.extend(antichain_spaces(tier, AntiOpts { futures: false, streams: false, limits: vec![], limit_below_width: false, fail_antichain: true }));
+    v.extend(tokio_task_spaces(tier, TaskOpts { futures: true, streams: false, fail_single: true, limits: vec![] }));
     v.push(space("StreamOpts builder methods called in every order with one failing function, shapes 1<=n<=3", shapes_upto(1, 3, false), None, |s| {
         let mut out = vec![];
         for fi in 0..s.n {
@@ -1238,6 +1355,7 @@ pub fn c10(tier: &str) -> (Vec<Space>, Focus) {
     }));
     v.extend(mid_spaces(tier, true, false, Some(2)));
     v.extend(antichain_spaces(tier, AntiOpts { futures: true, streams: false, limits: vec![Some(1), Some(2), Some(3), Some(5)], limit_below_width: true, fail_antichain: false }));
+    v.extend(tokio_task_spaces(tier, TaskOpts { futures: true, streams: false, fail_single: false, limits: vec![Some(1), Some(2), Some(50)] }));
     v.extend(all_methods_spaces(tier, true, false));
     v.extend(n5_space(tier, &[Some(1), Some(2), Some(3)]));
     let focus = Focus {
